@@ -241,14 +241,16 @@ def convert_cone(key, val):
     if nappe is None or nappe == 0:
         return SurfaceCollection([(cone, 1)])
 
+    # the axis-aligned plane types are oriented along the positive axis
+    # direction; use them only if the cone axis points that way, too
     pos = -(u_x * p_x + u_y * p_y + u_z * p_z)
-    if u_x == 0 and u_y == 0:
+    if u_x == 0 and u_y == 0 and u_z > 0:
         type_surface = T4S.PLANEZ
         param = [-pos / u_z]
-    elif u_y == 0 and u_z == 0:
+    elif u_y == 0 and u_z == 0 and u_x > 0:
         type_surface = T4S.PLANEX
         param = [-pos / u_x]
-    elif u_z == 0 and u_x == 0:
+    elif u_z == 0 and u_x == 0 and u_y > 0:
         type_surface = T4S.PLANEY
         param = [-pos / u_y]
     else:
